@@ -4,7 +4,7 @@ use super::common;
 use crate::engine::{self, fp, Cfg, Ctx, EvidenceSpec, Violation};
 use crate::gen::{Policy, Step};
 use crate::refmodel::*;
-use chess::{BoardStatus, Game, GameResult};
+use chess::BoardStatus;
 use serde_json::{json, Value};
 
 pub fn check_step(ctx: &mut Ctx, s: &Step) -> Result<(), Violation> {
@@ -49,15 +49,6 @@ pub fn check_step(ctx: &mut Ctx, s: &Step) -> Result<(), Violation> {
             format!("status() = {:?}; rules: in check = {}, legal moves = {} => {:?}", got, in_check, s.legal.len(), want),
             s.case(),
         )?;
-    }
-    let want_result = match want {
-        Status::Ongoing => None,
-        Status::Stalemate => Some(GameResult::Stalemate),
-        Status::Checkmate => Some(if p.stm == Col::W { GameResult::BlackCheckmates } else { GameResult::WhiteCheckmates }),
-    };
-    let gr = Game::new_with_board(*b).result();
-    if gr != want_result {
-        ctx.fail("status:game-result", format!("Game::new_with_board(..).result() = {:?}, expected {:?}", gr, want_result), s.case())?;
     }
     if want != Status::Ongoing {
         ctx.sample(|| s.case_with(json!({"status": format!("{:?}", want)})));
